@@ -164,6 +164,22 @@ def abcQ2dClenshaw (n m : Int) : K × K × K :=
   else if m == 3 && n == 0 then (ofInt 5, ofInt (-4), ofInt 0)
   else abcQ2d n m
 
+/-- the five patched entries of `abc_q2d_clenshaw` as a table `(n, m) ↦ (A, B, C)` of fractions -/
+def q2dPatchTable : List ((Int × Int) × ((Int × Nat) × (Int × Nat) × (Int × Nat))) :=
+  [((0, 1), ((2, 1), (-1, 1), (0, 1))), ((1, 1), ((-4, 3), (-8, 3), (-11, 3))),
+   ((2, 1), ((9, 5), (-24, 5), (0, 1))), ((0, 2), ((3, 1), (-2, 1), (0, 1))), ((0, 3), ((5, 1), (-4, 1), (0, 1)))]
+
+/-- first entry of a patch table listed under `(n, m)` -/
+def lookupNM {α : Type} : List ((Int × Int) × α) → Int → Int → Option α
+  | [], _, _ => none
+  | ((a, b), v) :: t, n, m => if n = a ∧ m = b then some v else lookupNM t n m
+
+/-- `abc_q2d_clenshaw` read from a patch table: the listed entry if `(n, m)` is listed, `abc_q2d` otherwise -/
+def abcOfTable (tbl : List ((Int × Int) × ((Int × Nat) × (Int × Nat) × (Int × Nat)))) (n m : Int) : K × K × K :=
+  match lookupNM tbl n m with
+  | some t => (ofFrac t.1.1 t.1.2, ofFrac t.2.1.1 t.2.1.2, ofFrac t.2.2.1 t.2.2.2)
+  | none => abcQ2d n m
+
 /-- auxiliary family of the 2D-Q polynomials of azimuthal order `m ≥ 1` (`A + B x` in Forbes' order) -/
 def q2dFam (m : Nat) : Fam K where
   a n := (abcQ2dClenshaw (K := K) n m).2.1
